@@ -98,6 +98,11 @@ class Ctx:
                 m = SWAP[op]
             if m is None:
                 continue
+            # for unsigned x:  x > 0  ==  x != 0   and   x <= 0  ==  x == 0
+            z = b if (lhs(a) and rhs(b)) else a
+            if m != when and isinstance(z, tuple) and z[0] == "lit" and z[1] == 0 and str(z[2] if len(z) > 2 else "").startswith("u"):
+                if {m, when} <= {"Ne", "Gt"} or {m, when} <= {"Eq", "Le"}:
+                    m = when
             if edge_filter is not None and not edge_filter(e):
                 continue
             refusing = bool(kinds) and kinds <= set(refusal)
